@@ -34,6 +34,7 @@ mod fam_mod2;
 mod fam_lender;
 mod fam_vbuild;
 mod fam_atomic;
+mod fam_chunks;
 
 pub struct Ctx {
     out: Arc<Mutex<File>>,
@@ -234,6 +235,7 @@ fn main() {
             "lender" => fam_lender::run(&ep, &mut ctx),
             "vbuild" => fam_vbuild::run(&ep, &mut ctx),
             "atomic" => fam_atomic::run(&ep, &mut ctx),
+            "chunks" => fam_chunks::run(&ep, &mut ctx),
             _ => {
                 eprintln!("unknown family {fam}");
                 std::process::exit(2);
